@@ -43,11 +43,14 @@ def readInput (i : Json) : R (Input × UserGdef) := do
   let quant ← asOpt asRat (← field i "quant")
   let anyLtr ← asBool (← field i "anyLtrCp")
   let ltr ← asOpt (asList asStr) (← field i "ltr")
+  let extras ← match (i.getObjVal? "extras").toOption with
+    | some j => asList (asPair asStr asStr) j
+    | none => pure []
   let todo ← asBool (← field i "cursTodo")
   let uc ← asList (asPair asStr asNat) (← field i "userClasses")
   let ucar ← asCarets (← field i "userCarets")
   return ({ glyphs, categories := cats, blocks := blocks.map (fun b => ⟨b.1, b.2⟩), quant,
-            dir := { anyLtrCp := anyLtr, ltr }, cursTodo := todo }, { classes := uc, carets := ucar })
+            dir := { anyLtrCp := anyLtr, ltr, extras }, cursTodo := todo }, { classes := uc, carets := ucar })
 
 /-- the input with same-named caret anchors collapsed to the first of each name, per glyph
 (used only to classify a failure as the known duplicate-name shape) -/
@@ -123,7 +126,7 @@ def pairs (req : Json) : R Reply := do
   let glyphs ← asList asGlyph (← field i "glyphs")
   let obs ← field req "obs"
   let oerr ← asOpt asStr (← field obs "err")
-  let inp : Input := { glyphs, categories := [], blocks := [], quant := none, dir := ⟨false, none⟩, cursTodo := true }
+  let inp : Input := { glyphs, categories := [], blocks := [], quant := none, dir := { anyLtrCp := false, ltr := none }, cursTodo := true }
   let ps := cursivePairs (anchorNameSet glyphs)
   let model := Json.mkObj [("err", Json.null), ("pairs", listJ (pairJ Json.str Json.str) ps)]
   match oerr with
